@@ -1,5 +1,6 @@
 import Resolvo.Sat.Dpll
 import Resolvo.Abs.Logic
+import Resolvo.RenderProofs
 /-!
 # C04 — solve and conflict rendering always terminate without panicking
 
@@ -10,6 +11,12 @@ panicking on every well-formed input" is decided per run by the harness (catch_u
 panic location reported, per-case watchdog for hangs, address-space limit for runaway output) in
 builds with and without debug assertions; the universal claim about the search loop is listed as
 not proved (DESIGN §6 C04 (d)).
+
+**Conflict rendering.** `Render.lean` models `Conflict::graph` with petgraph's index and iteration order,
+`simplify`, `get_installable_set`, `get_missing_set` and `DisplayUnsat`; the model's message equals the real one byte
+for byte on every generated conflict (tag `mdet-message`). Proved here for **every** conflict graph, cyclic or not:
+the rendering loop terminates (`message_rendering_terminates`) and writes a number of lines bounded by the size of
+the graph (`message_lines_bounded`).
 -/
 namespace Resolvo.C04
 open Resolvo.Sat
@@ -19,5 +26,23 @@ open Resolvo.Sat
 theorem oracle_total (f : Cnf) : (decideSat' f = true ∨ decideSat' f = false) ∧
     (decideSat' f = true ↔ ∃ a, evalCnf a f = true) :=
   ⟨by cases decideSat' f <;> simp, decideSat'_iff f⟩
+
+open Resolvo.Render in
+/-- **The user-friendly message is produced for every conflict graph**: the model of `DisplayUnsat` never runs out of
+    its fuel, whatever the shape of the graph (requirement cycles, merged candidates, …). The argument is a potential
+    function (`RenderProofs.stepOp_decreases`): every iteration of the `while let Some(..) = stack.pop()` loop either
+    marks a not yet reported solvable as reported or shrinks the stack's weight. The defect repaired in 5039a4b
+    (`reported` filled for merged candidates only) and the seeded change C04-e violate exactly this decrease. -/
+theorem message_rendering_terminates (U : Universe) (g : RG) : (render U g).isSome = true := render_total U g
+
+open Resolvo.Render in
+/-- **Output bounded by the size of the conflict**: each call of `fmt_graph` writes at most
+    `renderFuel · (|edges| + 1)` lines, where `renderFuel ≤ (|nodes| + 1) · (3·|edges| + 3) + 3·|edges| + 1`-ish is
+    the initial potential — polynomial in the graph, independent of cycles. -/
+theorem message_lines_bounded (U : Universe) (g : RG) (inst : List Nat) (topEdges : List Nat) (topIndent : Bool) :
+    ∃ out, fmtGraph { U := U, g := g, merged := simplify U g, inst := inst } topEdges topIndent = some out ∧
+      out.length ≤ renderFuel g ((setFirstLast ((sortGroups { U := U, g := g, merged := simplify U g, inst := inst }
+        (chunkReq g topEdges)).map (fun grp => (Op.req grp.1 grp.2, ({ top := topIndent } : Ind).push)))).reverse) * (g.edges.size + 1) :=
+  fmtGraph_terminates U g inst topEdges topIndent
 
 end Resolvo.C04
